@@ -3,7 +3,7 @@
 Decided: C08.a–f of DESIGN.md §3. Not decided: that no pointer ever dangles over all histories."""
 import re
 
-from rules.engine import (origins, origin_callees, deep_origins, constituent_origins, short, hir_walk, hir_expr_str, hir_sites,
+from rules.engine import (pat_str, origins, origin_callees, deep_origins, constituent_origins, short, hir_walk, hir_expr_str, hir_sites,
                           must_pass, codec_skeleton, compare_skeletons, success_cuts, witness_path, describe_path, MaySet)
 from rules import anchors as A
 
@@ -64,6 +64,7 @@ def run(prog, R, tier="quick", only_rule=None):
     from rules.props import c05
     c05.c05c(prog, R, rid="C08.h")
     c09.c09j(prog, R, rid="C08.i")
+    c08j(prog, R)
 
 
 def c08a(prog, R):
@@ -398,3 +399,70 @@ def c08f(prog, R):
     tail = hir_expr_str(h["body"]["b"].get("e"), 200) if h["body"].get("k") == "blockx" and h["body"]["b"].get("e") else ""
     r.check("linked_blob_files.into_iter()" in tail, "%s|returns the pruned list" % name, "the returned list is not the pruned candidate list", "", tail)
     r.floor(5)
+
+
+def _unwrap(n):
+    while isinstance(n, dict) and n.get("k") == "blockx" and not n["b"].get("s") and "e" in n["b"]:
+        n = n["b"]["e"]
+    return n
+
+
+def _disjuncts(n):
+    n = _unwrap(n)
+    if isinstance(n, dict) and n.get("k") == "bin" and n.get("op") == "||":
+        return _disjuncts(n["l"]) + _disjuncts(n["r"])
+    return [n]
+
+
+def _conjuncts(n):
+    n = _unwrap(n)
+    if isinstance(n, dict) and n.get("k") == "bin" and n.get("op") == "&&":
+        return _conjuncts(n["l"]) + _conjuncts(n["r"])
+    return [n]
+
+
+def c08j(prog, R, rid="C08.j"):
+    """Relocation matches each pointer with its blob while walking a merged scan of the blob files being rewritten.  What the
+    walk may throw away is only what no later pointer can reference: blobs of *smaller keys*, and earlier blobs of the same
+    key in the same file.  The order of one key's blobs in the scan (by the seqno stored with the blob) need not be the order of
+    its pointers (bulk ingestion stamps its seqno afterwards), so a blob of the current key in another file may belong to a
+    pointer that is still to come (finding F12)."""
+    r = R.rule(rid, "relocation never discards a blob that a later pointer of the same key may reference", "B,K")
+    h = prog.hir.get("compaction::flavour::drain_blobs")
+    if h is None:
+        r.anchor_missing("compaction::flavour::drain_blobs")
+        return
+    preds = []
+    for n in hir_walk(h["body"]):
+        if n.get("k") == "closure":
+            for m in hir_walk(n["b"]):
+                if m.get("k") == "match":
+                    for a in m["arms"]:
+                        if "Ok(" in pat_str(a["pat"]):
+                            preds.append(a["b"])
+    if len(preds) != 1:
+        r.anchor_missing("the drain predicate (Ok arm of the next_if closure) in drain_blobs (found %d)" % len(preds))
+        return
+    bad = []
+    shapes = []
+    for d in _disjuncts(preds[0]):
+        cs = [hir_expr_str(c, 200) for c in _conjuncts(d)]
+        shapes.append(" && ".join(cs))
+        smaller_key = any(c in ("(entry.key < key)", "(key > entry.key)") for c in cs)
+        same_key = any(c in ("(entry.key == key)", "(key == entry.key)") for c in cs)
+        same_file = any("blob_file_id ==" in c or "== *blob_file_id" in c for c in cs)
+        earlier = any(c.startswith("(entry.offset < ") for c in cs)
+        if not (smaller_key or (same_key and same_file and earlier)):
+            bad.append(" && ".join(cs))
+    r.check(not bad, "compaction::flavour::drain_blobs|drains only smaller keys, or earlier blobs of the same key in the same file",
+            "the relocation scan throws away blobs under the condition `%s`: a blob of the current key that sits in another blob file "
+            "(or any blob of a later key) is lost although a pointer still to come references it; the compaction then panics "
+            "`vptr was not matched with blob`" % " || ".join(bad), "", " || ".join(shapes))
+    # the blob handed to the writer is identified by (file, offset), and passed-over blobs of the key are kept
+    f = prog.fn("compaction::flavour::RelocatingCompaction::take_blob")
+    wr = prog.need("<compaction::flavour::RelocatingCompaction as compaction::flavour::CompactionFlavour>::write")
+    uses = [c for c in wr.calls if c.sres.endswith("RelocatingCompaction::take_blob")]
+    keeps = bool(f) and any(c.sres.endswith("Vec::push") for c in f.calls) and any(c.sres.endswith("Iterator>::position") or c.sres.endswith("Iterator::position") for c in f.calls)
+    r.check(bool(uses) and keeps, "RelocatingCompaction::write|passed-over blobs of the current key are parked and searched first",
+            "relocation does not keep the blobs of the current key it passes over", wr.where())
+    r.floor(2)
